@@ -222,7 +222,7 @@ def determinism_selftest(arg):
             ch = replay_choices(scenario, params, sched)
             obs.append((len(ch.choices), [len(o) for o in ch.points], repr(ch.outcome), ch.steps, sorted(ch.found)))
         if obs[0] != obs[1]:
-            return "schedule %r of params %r: %r vs %r" % (sched, params, obs[0], obs[1])
+            return ("schedule %r of params %r: %r vs %r" % (sched, params, obs[0], obs[1]), bool(obs[0][4] or obs[1][4]))
     return None
 
 
@@ -237,7 +237,14 @@ def explore_all(module, fn, params_list, bound, use_hash=False, max_exec_per_job
         probe = [(params_list[0], bound)] + ([(params_list[-1], bound)] if len(params_list) > 1 else [])
         for bad in core.pmap("mc.explore", "determinism_selftest", probe, initargs=(module, fn), jobs=jobs):
             if bad:
-                raise Nondeterminism("NONDETERMINISM: " + bad)
+                if bad[1]:
+                    # the two executions differ AND at least one of them already violates the property: the code under test
+                    # keeps state that outlives its connection objects (a class-level or module-level table), so an execution
+                    # depends on the sessions the process served before it.  That is behaviour of the code, not of the harness:
+                    # go on (every worker's first execution starts from a clean process) and let the oracles report it.
+                    print("HARNESS-NOTE: executions of one schedule differ inside one process (library state outlives its connections?): %s" % bad[0][:300])
+                    continue
+                raise Nondeterminism("NONDETERMINISM: " + bad[0])
     total = Stats()
     sigs = {}
     roots = [("root", p, bound, False, None, None, None) for p in params_list]
